@@ -6,6 +6,7 @@ import (
 	"flag"
 	"fmt"
 	"os"
+	"runtime/pprof"
 	"sort"
 	"strconv"
 
@@ -46,6 +47,11 @@ func main() {
 	}
 	if err := os.MkdirAll(c.dir, 0o755); err != nil {
 		vh.Fatal("%v", err)
+	}
+	if pf := os.Getenv("VERIF_CPUPROFILE"); pf != "" {
+		f, _ := os.Create(pf)
+		pprof.StartCPUProfile(f)
+		defer pprof.StopCPUProfile()
 	}
 	d(c)
 }
